@@ -22,6 +22,7 @@ def _run(args):
     if r.status == 'failed':
         extra['traces'] = {}
         for p in r.failed[:3]:
+            if r.job.irfacts: extra['traces'][p['id']] = ('static fact not found in the IR', {}); continue
             try: extra['traces'][p['id']] = vf.trace_for(r, p)
             except Exception as ex: extra['traces'][p['id']] = ('trace unavailable: %s' % ex, {})
     return {'key': r.key, 'job': jid, 'cfg': cfg, 'variant': r.variant, 'status': r.status, 'reason': r.reason, 'props': r.props, 'solver_s': r.solver_s,
